@@ -7,6 +7,30 @@ HERE = os.path.dirname(os.path.abspath(__file__))
 
 # id -> (technique, level text, level note, design ref)
 CLAIMED = {
+    "C01": (
+        "static gate-dominance analysis with affine entailment: who-may-construct, dominance of the five frame gates over every typed construction, CRC-extent agreement, CRC gate completeness (three byte pairs at n-3..n-1), type provenance, constants and dependency pin",
+        "Decides for every input that reaches a typed construction (all paths) that the five frame checks dominate it and cover exactly the delivered bytes; the length guard is checked by entailment, so weakened or off-by-one guards are refuted. CRC arithmetic is trusted at the pinned dependency version.",
+        "crc24q at the pinned version; bit reader (C14) trusted",
+        "DESIGN.md 4.1",
+    ),
+    "C02": (
+        "static byte-conservation analysis of the framer: accumulator discipline (append-once on the success edge, no stale buffer), return-all / push-back pairing, exact frame extent by affine loop invariants and callee ensures, FIFO push-back structure, forward-all/close-once path rules, Kahn-determinism effect check",
+        "Decides losslessness structurally on every CFG path of the framer (all byte streams, all truncation points, all channel capacities/timings via determinism of the sequential stage).",
+        "append/slice/channel semantics; lemma L-helper-pure (premises re-verified each run)",
+        "DESIGN.md 4.2",
+    ),
+    "C03": (
+        "static layout and exit-site analysis: leader field reads and gates, exact L+6 byte count, no content-dependent exit, junk delimiting only at 0xD3/EOF, rejection sites enumerated and matched against the five standard reasons, plus the C02 conservation rules",
+        "Decides that frames are delimited by their own length field only and rejected only for standard reasons, on all paths; segment equality follows from conservation + delimiting.",
+        "bit reader and CRC arithmetic trusted",
+        "DESIGN.md 4.3",
+    ),
+    "C12": (
+        "static path/dominance rules: CRC-failure exit returns the whole candidate as one non-RTCM message, no content-dependent exit or push-back while a candidate is read, CRC gate completeness, C02 conservation",
+        "Decides that a CRC failure cannot move a frame boundary and costs exactly the candidate frame, on every path.",
+        "the corrupted frame's CRC differs (2^-24 residual inherent to CRC)",
+        "DESIGN.md 4.12",
+    ),
     "C06": (
         "static dataflow/dominance rules: lost-update (copy-of-receiver) analysis, per-constellation field separation, type-dispatch table extraction, no-store-on-error paths, strict rollover comparison, constant evaluation",
         "Decides structural necessary conditions of the week bookkeeping (state persistence, constellation separation, dispatch tables over the whole type domain, no state write on error paths, strict rollover test with +7 days, offset/limit constants). Does not decide numerical equality of reported times.",
